@@ -67,9 +67,17 @@ KINDS = {
     "alttxt": "ALTER TABLE {T} ALTER COLUMN {b} bigint;",
     "defb": "ALTER TABLE {T} ADD CONSTRAINT d3 DEFAULT 7 FOR b;",
     # a foreign key without a referenced column list (the referenced table's key), and one with a two-word referential action
+    # further value forms of ADD DEFAULT ... FOR: a string, a negative number, a keyword value; and the SQL Server forms (a call, a
+    # parenthesised value) the grammar does not reach (known finding)
+    "defstr": "ALTER TABLE {T} ADD CONSTRAINT d4 DEFAULT 'x' FOR b;",
+    "defneg": "ALTER TABLE {T} ADD CONSTRAINT d5 DEFAULT -1 FOR c;",
+    "defkw": "ALTER TABLE {T} ADD CONSTRAINT d6 DEFAULT CURRENT_TIMESTAMP FOR c;",
+    "defcall": "ALTER TABLE {T} ADD CONSTRAINT d7 DEFAULT getdate() FOR c;",
+    "defpar": "ALTER TABLE {T} ADD CONSTRAINT d8 DEFAULT ((0)) FOR a;",
     "fknc": "ALTER TABLE {T} ADD FOREIGN KEY (a, c) REFERENCES s9.o;",
     "fk2w": "ALTER TABLE {T} ADD CONSTRAINT fk3 FOREIGN KEY (c) REFERENCES s9.o (y) ON DELETE SET NULL;",
 }
+KF_KINDS = {"fk2w", "defcall", "defpar"}  # kinds with an open known finding: enumerated at depth 1 only (they would mask their partners)
 MODES = ["sql", "bigquery"]
 OTHER_MODES = ["redshift", "spark_sql", "mysql", "mssql", "databricks", "sqlite", "vertics", "ibm_db2", "postgres", "oracle", "hql", "snowflake", "athena"]
 D3Q_KINDS = ["add", "ifex", "dropd", "rend", "drop", "rename", "fk1", "modcol", "fkbb", "fkd", "modtxt", "defb"]
@@ -138,7 +146,7 @@ def gen_cases(tier):
                         cases.append({"tabs": tabs, "ops": [["add", first, "asis", "asis", "asis"], [k, und, "asis", "asis", "asis"]],
                                       "undefined": True, "mode": mode})
     # depth 2: all ordered pairs (kind, target)
-    singles = [[k, t] for k in KINDS for t in TKEYS]
+    singles = [[k, t] for k in KINDS for t in TKEYS if k not in KF_KINDS]
     for a, b in itertools.product(singles, repeat=2):
         cases.append({"tabs": full, "ops": [a + ["asis", "asis", "asis"], b + ["up", "dq", "dq"] if (len(cases) % 2) else b + ["asis", "asis", "asis"]]})
         if a[1] in ("s1.t", "t") and b[1] in ("s1.t", "t"):
@@ -147,7 +155,7 @@ def gen_cases(tier):
     # every ordered pair of statement kinds on the unqualified table in every other output mode (each dialect class has its own
     # post-processing hooks: the effect of a second statement must not depend on the mode)
     for m in OTHER_MODES:
-        for ka, kb in itertools.product(KINDS, repeat=2):
+        for ka, kb in itertools.product([k for k in KINDS if k not in KF_KINDS], repeat=2):
             cases.append({"tabs": ["t", "u"], "ops": [[ka, "t", "asis", "asis", "asis"], [kb, "t", "asis", "asis", "asis"]], "mode": m})
     # depth 3: every triple over the statements that edit the column list (incl. ones aimed at a column added earlier)
     s3q = [[k, t] for k in D3Q_KINDS for t in D3Q_TABS]
@@ -158,7 +166,7 @@ def gen_cases(tier):
         for tri in itertools.product(s3, repeat=3):
             cases.append({"tabs": full, "ops": [x + ["asis", "asis", "asis"] for x in tri]})
         # every triple over ALL statement kinds on the two same-named tables, and every history of length 4 over the column-list kinds
-        s3a = [[k, t] for k in KINDS for t in D3Q_TABS]
+        s3a = [[k, t] for k in KINDS for t in D3Q_TABS if k not in KF_KINDS]
         for tri in itertools.product(s3a, repeat=3):
             cases.append({"tabs": ["s1.t", "t", "u"], "ops": [x + ["asis", "asis", "asis"] for x in tri]})
         for quad in itertools.product(s3q, repeat=4):
@@ -215,8 +223,10 @@ def apply(m, op):
         A.setdefault("uniques", []).append({"constraint_name": "u1", "columns": ["a", "b"]})
     elif k in ("chk", "only"):
         A.setdefault("checks", []).append({"constraint_name": "c1", "statement": "a > 0"} if k == "chk" else {"constraint_name": "c2", "statement": "c > 0"})
-    elif k in ("def", "def2", "defnull"):
-        targets, cname, val = {"def": (["a"], "d1", "0"), "def2": (["a", "c"], "d1", "0"), "defnull": (["c"], "d2", "NULL")}[k]
+    elif k in ("def", "def2", "defnull", "defstr", "defneg", "defkw", "defcall", "defpar"):
+        targets, cname, val = {"def": (["a"], "d1", "0"), "def2": (["a", "c"], "d1", "0"), "defnull": (["c"], "d2", "NULL"), "defstr": (["b"], "d4", "'x'"),
+                               "defneg": (["c"], "d5", "-1"), "defkw": (["c"], "d6", "CURRENT_TIMESTAMP"), "defcall": (["c"], "d7", "getdate()"),
+                               "defpar": (["a"], "d8", "((0))")}[k]
         A.setdefault("defaults", []).append({"constraint_name": cname, "columns": targets, "value": val})
         for c in cols:
             if c[0] in targets:
@@ -288,6 +298,8 @@ def features(case):
             f.append("target:backtick")
         if op[0] == "fk2w":
             f.append("alter-fk-action:two-word")
+        if op[0] in ("defcall", "defpar"):
+            f.append("alter-default:call-or-parenthesised-value")
     return sorted(set(f))
 
 
